@@ -66,7 +66,7 @@ const kdcErrSpace = kdcErrCodes * 3
 // kdc-plain / ap-plain: a Byzantine peer holding valid keys re-encodes the plaintext it is about to
 // seal with one element emptied / resized / duplicated / removed (mode shape, first half of the
 // space) or with one length octet corrupted (mode field, second half)
-const plainShapeN, plainSpace = 700, 2200
+const plainShapeN, plainSpace = 900, 2400
 
 func plainDamage(plain []byte, d int) ([]byte, string, bool) {
 	if d < plainShapeN {
